@@ -68,13 +68,22 @@ def zone_year_worker(args):
         importlib.reload(dp)
         whenever._patch_time_frozen(SystemDateTime(year, 7, 1, 12).instant())
         out = {}
-        for mode, (f, b) in (('none', (None, None)), ('fwd', ('skip', None)), ('bwd', (None, 'twice'))):
+        # through the public API (TriggerBuilder.time / .earliest / .latest -> get_time_replacer -> check_dst_handling);
+        # the calls that name one policy come first: what they are told must not leak into the call without any policy
+        from eascheduler.builder.triggers import TriggerBuilder
+        base_trigger = TriggerBuilder.interval(None, 3600)
+        for mode, (f, b) in (('fwd', ('skip', None)), ('bwd', (None, 'twice')), ('none', (None, None))):
             res = []
-            for t in times:
+            for i, t in enumerate(times):
                 s, ns = divmod(t, NS_S)
                 tm = Time(s // 3600, s % 3600 // 60, s % 60, nanosecond=ns)
                 try:
-                    dp.check_dst_handling(tm, f, b)
+                    if i % 3 == 0:
+                        TriggerBuilder.time(tm, clock_forward=f, clock_backward=b)
+                    elif i % 3 == 1:
+                        base_trigger.earliest(tm, clock_forward=f, clock_backward=b)
+                    else:
+                        base_trigger.latest(tm, clock_forward=f, clock_backward=b)
                     res.append('a')
                 except ValueError:
                     res.append('r')
